@@ -666,11 +666,15 @@ def new_simproc(kind="scheduler", pid=None):
 
 # ---------------------------------------------------------------------------------------------- execution wrapper
 def run_world(mains, schedule=None, policy="FIFO", fine=False, kill=None, max_steps=20000, on_step=None,
-              expect_widths=None, keep_dir=False, prepare=None, at_end=None):
+              expect_widths=None, keep_dir=False, prepare=None, at_end=None, root_override=None):
     """mains: list of callables(world_dir: Path, result: dict, proc: SimProc), one simulated scheduler process each.
     Returns (result, hub, world).  The working directory is removed unless keep_dir."""
     global HUB, W
-    wd = Path(tempfile.mkdtemp(prefix="vw", dir="/dev/shm" if os.path.isdir("/dev/shm") else None))
+    if root_override is not None:
+        wd = Path(root_override)
+        keep_dir = True
+    else:
+        wd = Path(tempfile.mkdtemp(prefix="vw", dir="/dev/shm" if os.path.isdir("/dev/shm") else None))
     hub = Hub(schedule, policy, max_steps, kill, on_step, expect_widths)
     world = World(wd, fine)
     HUB, W = hub, world
